@@ -26,7 +26,7 @@ CHECKS = {
              level_note="Negative cases assume the underlying ed25519 / secp256k1 (btcec) primitives are unforgeable: a mutated signature verifying "
                         "would be reported as a violation. Address derivations are restated independently (sha256-20 for ed25519 and multisig, "
                         "ripemd160(sha256) for secp256k1). Trusts rapid."),
-    "C40": c("codec", "TestC40", dict(checks=45, timeout=600), dict(checks=400, shards=14, timeout=1500),
+    "C40": c("codec", "TestC40", dict(checks=36, timeout=600), dict(checks=400, shards=14, timeout=1500),
              technique="stateful property-based testing (rapid state machine) of the keybase against a map model, plus armor round-trip / wrong-passphrase / corruption checks",
              design_ref="DESIGN.md §7 C40",
              level_text="Generated keys, passphrases (empty, ASCII, unicode, long) and hints: armored keys decrypt to the identical key with the right "
